@@ -532,7 +532,16 @@ where
                     PoeticNumberLiteralIteratorItem::SuffixedWord(s, self.greedily_match_suffixes())
                 })
                 .unwrap_or_else(|| PoeticNumberLiteralIteratorItem::Word(s)),
-            PoeticNumberLiteralElem::WordSuffix(_) => unreachable!(),
+            // a suffix with no word in front of it (after a comment, a period or a comma):
+            // it and the suffixes that follow count as a word of their own
+            PoeticNumberLiteralElem::WordSuffix(s) => {
+                let mut rest = Vec::new();
+                while let Some(&PoeticNumberLiteralElem::WordSuffix(ref next)) = self.iter.peek() {
+                    rest.push(next);
+                    self.iter.next();
+                }
+                PoeticNumberLiteralIteratorItem::SuffixedWord(s, rest)
+            }
         })
     }
 }
